@@ -413,6 +413,25 @@ func c05Judge(t *engine.T, label, topStruct string, docBytes []byte, want *canon
 	for _, d := range canon.Diff(gc, canon.Of(v2, canon.JSON)) {
 		t.Fail("C05|fixpoint|"+deltaKey(topStruct, d), "decode(encode(v)) differs from v: %s\nencoded: %s", d, e1)
 	}
+	// decoding is a function of the document: the same bytes decode to the same value every time, language entries in document
+	// order included (8 decodes when there is a list of two or more entries)
+	if canon.HasMultiLang(gc) {
+		for round := 0; round < 8; round++ {
+			again, err := ap.UnmarshalJSON(docBytes)
+			if err != nil {
+				break
+			}
+			ac := canon.Of(again, canon.JSON)
+			if where := canon.OrderDiff(gc, ac); where != "" || !canon.Equal(gc, ac) {
+				t.Fail("C05|decode-not-deterministic|"+topStruct+"|"+canon.LastTerm(where), "decoding the same document again (round %d) gave another value / another order of %s\ndoc: %s", round, where, docBytes)
+				break
+			}
+			if where := canon.OrderDiff(gc, canon.Of(v2, canon.JSON)); where != "" {
+				t.Fail("C05|fixpoint|"+topStruct+"|"+canon.LastTerm(where)+"|lang-order-changed", "decode(encode(v)) holds the entries of %s in another order\nencoded: %s", where, e1)
+				break
+			}
+		}
+	}
 	e2, err := ap.MarshalJSON(v2)
 	t.Ops(2)
 	if err != nil || !bytes.Equal(e1, e2) {
